@@ -18,6 +18,7 @@ package server
 //   no panic in any server thread, the bystander's replies are unchanged.
 
 import (
+	"strconv"
 	"fmt"
 	"regexp"
 	"strings"
@@ -239,7 +240,7 @@ func checkC16Cuts(job *Job, res *Result) {
 }
 
 func checkC16Bad(job *Job, res *Result) {
-	res.Rule = "SEQ over inputs: all byte strings of length <= L (quick 4, thorough 5) over {* $ 1 2 - CR LF space \" G P a NUL} 10 HTTP request lines x 101 header-line forms x 3 terminations, 220 inputs with array counts / bulk lengths / native lengths / Content-Length at the integer-type boundaries, and every catalogue command shape with one argument deleted / duplicated / emptied, each on its own connection of a live server next to a bystander connection; distinct = distinct (input class, reaction)"
+	res.Rule = "SEQ over inputs: all byte strings of length <= L (quick 4, thorough 5) over {* $ 1 2 - CR LF space \" G P a NUL} 10 HTTP request lines x 101 header-line forms x 3 terminations, 220 inputs with array counts / bulk lengths / native lengths / Content-Length at the integer-type boundaries, and every catalogue command shape with one argument deleted / duplicated / emptied / (if numeric) replaced by 14 boundary numbers, each on its own connection of a live server next to a bystander connection; distinct = distinct (input class, reaction)"
 	maxLen := 4
 	if job.Tier == "thorough" {
 		maxLen = 5
@@ -256,9 +257,11 @@ func checkC16Bad(job *Job, res *Result) {
 		refGet := by.Do("GET", "bystander", "b").String()
 		check := func(label string, input []byte) bool {
 			c := x.Dial(in.Addr)
+			done := res.Pending("C16/server-dies-or-spins:"+label, fmt.Sprintf("the server process did not survive input %q (fatal runtime error, or a thread spinning for more than 60 s of real time)", input), map[string]any{"input": fmt.Sprintf("%q", input)})
 			c.c.Inject(input)
 			vsched.WaitUntilOr(func() bool { return c.c.Consumed() || c.c.EOF() }, int64(10*stdtime.Second))
 			vsched.Quiesce()
+			done()
 			reaction := "waits"
 			if c.c.EOF() {
 				reaction = "closed"
@@ -373,6 +376,14 @@ func checkC16Bad(job *Job, res *Result) {
 					e := append([]string{}, args...)
 					e[i] = ""
 					variants = append(variants, e) // emptied
+					// a numeric argument replaced by the boundaries of the number types
+					if _, err := strconv.ParseFloat(args[i], 64); err == nil && i > 0 {
+						for _, nv := range []string{"0", "-1", "NaN", "+Inf", "-Inf", "1e309", "-0", "9223372036854775807", "9223372036854775808", "4294967296", "0.0000000001", "1e-320", "180.0000001", "-90.0000001"} {
+							b := append([]string{}, args...)
+							b[i] = nv
+							variants = append(variants, b)
+						}
+					}
 				}
 				for _, v := range variants {
 					k++
